@@ -38,6 +38,7 @@ type Verdict struct {
 	NonTrivial bool     // counts towards distinct_nontrivial
 	Key        string   // identity of the case for distinctness (hashed)
 	Labels     []string // classification labels
+	NoShrink   bool     // a violation that must not be shrunk (a hang: every shrink attempt would hang again)
 }
 
 func OK(nontrivial bool, key string, labels ...string) Verdict {
@@ -309,6 +310,11 @@ func NewSub[C any](name string, quick, thorough int, gen func(*rapid.T) C, check
 		}
 		v := safeCheck(check, c)
 		if fail, p := record(name, c, v); fail {
+			if v.NoShrink {
+				fmt.Printf("VIOLATES %s/%s (not shrunk): %s\nreplay=%s\n", Property, name, v.Msg, p)
+				flush()
+				os.Exit(3)
+			}
 			t.Fatalf("VIOLATES %s/%s: %s\nreplay=%s", Property, name, v.Msg, p)
 		}
 	}
